@@ -35,10 +35,6 @@ Theorem C17_clause3_empty_soapaction_refuted :
   wf_definitions witness3 = true /\ findings [] witness3 = [[3%nat]] /\ names_distinct [] witness3 = true
   /\ no_shadow witness3 = true /\ ~ mapper_matches [] witness3.
 Proof. exact clause3_refuted. Qed.
-Theorem C17_clause4_style_undeclared_refuted :
-  wf_definitions witness4 = true /\ findings [] witness4 = [[4%nat]] /\ names_distinct [] witness4 = true
-  /\ no_shadow witness4 = true /\ ~ mapper_matches [] witness4.
-Proof. exact clause4_refuted. Qed.
 Theorem C17_clause5_document_type_part_refuted :
   wf_definitions witness5 = true /\ findings [] witness5 = [[5%nat]] /\ names_distinct [] witness5 = true
   /\ no_shadow witness5 = true /\ ~ mapper_matches [] witness5.
